@@ -14,7 +14,7 @@ TRUSTED = ["correspondence harness harness/pC10.py and driver SmrtVerif/Driver/C
            "parameters, nsamples of generic_ft_even_matrix, the SCE second-order term A2 (quadrature over the microstructure "
            "functions) and, for the SCE phase function, the spectrum at the complex wavenumber the code evaluates it at",
            "real arithmetic in the theorems vs IEEE doubles in the code (rounding not modelled)"]
-ASSUMPTIONS = ["snow layers: density 30-900 kg/m3, 200-273 K, 1-100 GHz, scatterer size/wavelength in [0.002, 0.05] where size = sphere "
+ASSUMPTIONS = ["snow layers: density 30-900 kg/m3, 200-273 K, 1-100 GHz, scatterer size/wavelength in [0.0002, 0.05] where size = sphere "
                "diameter, correlation length (the larger one for the unified Teubner-Strey model); "
                "background = air (real permittivity 1) unless the DMRT models invert the medium above frac_volume 0.5",
                "the Rayleigh class is modelled for a real background permittivity (with a complex one the code's `e0**2` makes ks complex)",
@@ -506,13 +506,25 @@ def check_case(inp):
             if not err <= tol:
                 bad.append(("fourier", f"ft_even_phase() modes differ from the Fourier sums of phase() on {nphi} azimuths "
                             f"(mu_s={mus}, mu_i={mui}, npol={npol})", err, f"<= {tol} of the largest coefficient"))
+        # the direction-resolved function is a function of the direction: its value at an azimuth does not depend on which other azimuths
+        # are asked for in the same call, nor on what was evaluated before (an irregular grid with the ends and the length of the code's own)
+        K = nsamples_of(m_max) // 2 + 1
+        grid = np.concatenate(([0.0], np.sort(np.pi * (0.5 - 0.5 * np.cos(np.pi * (np.arange(1, K - 1) + 0.3) / (K - 1)))), [np.pi]))
+        together = np.asarray(em.phase(np.array([mus]), np.array([mui]), grid, npol).values)[:, :, :, 0, 0].real
+        for j in sorted({1, K // 2, K - 2} & set(range(K))):
+            alone = np.asarray(em.phase(np.array([mus]), np.array([mui]), np.array([grid[j]]), npol).values)[:, :, 0, 0, 0].real
+            sc = max(np.abs(together).max(), 1e-300)
+            if not float(np.abs(together[:, :, j] - alone).max() / sc) <= 1e-10:
+                bad.append(("phase-function", f"phase() at azimuth {grid[j]:.6f} depends on the other azimuths of the call or on earlier calls "
+                            f"(mu_s={mus}, mu_i={mui}, npol={npol})", float(np.abs(together[:, :, j] - alone).max() / sc), "<= 1e-10"))
+                break
     return bad
 
 
 def gen_case(rng, name, ms):
     freq = float(10 ** rng.uniform(9, 11))
     lam = 299792458.0 / freq
-    size = lam * float(10 ** rng.uniform(math.log10(0.002), math.log10(0.05)))
+    size = lam * float(10 ** rng.uniform(math.log10(2e-4), math.log10(0.05)))
     dmax = 450.0 if "sticky" in ms else 900.0
     dens = float(rng.uniform(30, dmax))
     kw = sized_params(rng, ms, size, dens)
